@@ -94,9 +94,10 @@ func ruleC01Range(c *Ctx) {
 			c.Undecided(rule, FnName(fn)+" | backend I/O call", c.P.InstrPos(sites[0]), "caller of replicator.WriteAt/ReadAt without (b []byte, off int64) parameters: cannot state the range fact")
 			continue
 		}
-		c.Guard(rule, fn, sites, "call replicator I/O", isUnlockCall,
-			atom("off >= 0", fmt.Sprintf("+$%d >=0", oi)),
-			atom("off+len(b) <= c.size", fmt.Sprintf("+$0.size -$%d -len($%d) >=0", oi, bi)))
+		c.Guard(rule, fn, sites, "call replicator I/O", lockOrUnlock,
+			Need{Desc: "off >= 0", Atoms: []string{fmt.Sprintf("+$%d >=0", oi)}, Kill: func(ssa.Instruction) bool { return false }},
+			atom("off+len(b) <= c.size, read in the lock region of the call", fmt.Sprintf("+$0.size -$%d -len($%d) >=0", oi, bi)),
+			needWLock("controller lock taken"))
 	}
 	c.Floor(rule, 4)
 }
